@@ -1,5 +1,5 @@
 From Coq Require Import ZArith List Bool Arith.
-From PV Require Import Base.U64 E3.E3_Run C05.C05_Asym C05.C05_AsymProofs C05.C05_AsymTSO C05.C05_Model C05.C05_Proofs C05.C05_Proofs2 C05.C05_Proofs3 C05.C05_Proofs4 C05.C05_Proofs5 C05.C05_Pool C05.C05_PoolProofs C05.C05_E4 C05.C05_E4Proofs.
+From PV Require Import Base.U64 E3.E3_Run C05.C05_Asym C05.C05_AsymProofs C05.C05_AsymTSO C05.C05_Model C05.C05_Proofs C05.C05_Proofs2 C05.C05_Proofs3 C05.C05_Proofs4 C05.C05_Proofs5 C05.C05_Pool C05.C05_PoolProofs C05.C05_E4 C05.C05_E4Proofs C05.C05_FiniProofs.
 Import ListNotations.
 
 (* ---- asymmetric_spinLock (the run-queue lock) ------------------------------------------------- *)
@@ -141,3 +141,26 @@ Theorem e4_reachable : forall progs nv n flags t0 cs,
   reachable progs nv n flags t0 (e4_run progs (init_state nv n flags t0) cs).
 Proof. exact e4_reachable_proof. Qed.
 Print Assumptions e4_reachable.
+
+(* ---- vCPU wind-down: wait_all / vcpu_fini (thread.cpp 2200-2217, 2334-2350) ---------------------------------------------
+   `offline progs s v` = the main thread of vCPU v has returned from vcpu_fini.  In every reachable state (any programs, any
+   number of vCPUs, any schedule — including migrations into v, cross-vCPU wake-ups and steals while v's main thread is inside
+   wait_all) a finalised vCPU has an empty sleep queue, an empty standby queue, no pending switch and at most two ring members
+   headed by its main thread; every live thread that belongs to it is one of those two (the main thread and the idler that
+   vcpu_fini joins and destroys): wait_all returned only when run queue (minus main / idler), sleep queue AND standby queue
+   were empty, and nothing entered afterwards.  No thread is lost by finalising a vCPU. *)
+Theorem fini_loses_nothing : forall progs nv n flags t0 s v, (nv <= n)%nat -> reachable progs nv n flags t0 s ->
+  offline progs s v = true ->
+  clean s v /  (forall t, live (s_th s t) = true -> th_vcpu (s_th s t) = v -> In t (v_runq (s_vc s v))) /  (forall t, th_vcpu (s_th s t) = v -> th_state (s_th s t) <> SLEEPING /\ th_state (s_th s t) <> STANDBY \/ In t (v_runq (s_vc s v))).
+Proof. exact fini_loses_nothing_proof. Qed.
+Print Assumptions fini_loses_nothing.
+
+(* the same system with wait_all's loop test WITHOUT `!standbyq.empty()` (seeded change C05_2): a thread migrated into the
+   standby queue of a vCPU whose main thread then calls vcpu_fini is lost — it is live, never ran, belongs to the finalised
+   vCPU and sits in its standby queue for ever *)
+Theorem fini_without_standby_test_refuted :
+  exists ls t, let s := run_ns c052_progs (init_state 2 3 c052_flags 1000) ls in
+    s_stuck s = false /\ offline c052_progs s 0%nat = true /\
+    live (s_th s t) = true /\ th_vcpu (s_th s t) = 0%nat /\ g_started (s_th s t) = 0%nat /\ v_standby (s_vc s 0%nat) = [t].
+Proof. exact fini_without_standby_test_refuted_proof. Qed.
+Print Assumptions fini_without_standby_test_refuted.
